@@ -197,6 +197,15 @@ def rewrite_once(text, old, new, label):
     return text.replace(old, new)
 
 
+def rewrite_regex_once(text, pattern, repl, label):
+    """D5 with a hole: the site is given as a regex with capture groups (the captured text is
+    copied verbatim into the replacement); must match exactly once."""
+    ms = list(re.finditer(pattern, text))
+    if len(ms) != 1:
+        raise Undecided(f"rewrite site `{label}` matched {len(ms)} times (expected exactly 1)")
+    return re.sub(pattern, repl, text, count=1)
+
+
 def fn_header_body(fn_text):
     """Split a fn item into (header up to and excluding the body's '{', body including braces)."""
     depth = 0
